@@ -153,7 +153,69 @@ def _rpair(c):
     return ev
 
 
+RGRID = {"3575": (-3000000.0, -4000000.0, 1000000.0, -500000.0), "3035": (3000000.0, 2000000.0, 5000000.0, 4000000.0), "32633": (400000.0, 5500000.0, 1000000.0, 6100000.0)}
+RQ_CENTRE = {"3575": (10.0, 0.0), "3035": (0.0, 0.0), "32633": (4.0, 2.0)}      # offsets (degrees) that put the family of centres over each grid
+
+
+def _rquery(c):
+    """ellipse in lon/lat against a tiled grid in a really different CRS; environment table from fresh pyproj"""
+    import numpy as np
+    import pyproj
+
+    from odc.geo import geom as G
+    from odc.geo.geobox import GeoBox, GeoboxTiles
+
+    chy, chx = c["tiling"]
+    ev = {"op": "rquery", "c": c, "outcome": "ok", "out": [], "need": [], "far": []}
+    try:
+        gb = GeoBox.from_bbox(RGRID[c["grid"]], f"epsg:{c['grid']}", shape=(sum(chy), sum(chx)), tight=True)
+        gbt = GeoboxTiles(gb, (tuple(chy), tuple(chx)))
+        # centre: the grid's own centre in lon/lat, moved by the case's offsets
+        ll = pyproj.Transformer.from_crs(int(c["grid"]), 4326, always_xy=True)
+        bx = RGRID[c["grid"]]
+        lon0, lat0 = ll.transform((bx[0] + bx[2]) / 2, (bx[1] + bx[3]) / 2)
+        lon0 += (c["lon"] - 150) / 10 / 4
+        lat0 = min(84.0, max(-84.0, lat0 + (c["lat"] - 550) / 10 / 4))
+        a, b = c["a"] / 10, c["b"] / 10
+        t = np.linspace(0, 2 * np.pi, 181)[:-1]
+        ring = [(lon0 + a * np.cos(u), lat0 + b * np.sin(u)) for u in t]
+        if any(abs(y) > 89 or abs(x) > 179 for x, y in ring):
+            ev["outcome"] = "skip_destination_outside_the_valid_area_of_its_crs"
+            return ev
+        poly = G.polygon(ring + ring[:1], "epsg:4326")
+        ev["out"] = [[idx(r_), idx(c_)] for r_, c_ in gbt.tiles(poly)]
+        # environment: a polar grid of sample points strictly inside the ellipse -> pixel coordinates of the grid
+        rr, uu = np.meshgrid(np.linspace(0.02, 0.97, 40), np.linspace(0, 2 * np.pi, 145)[:-1])
+        sx, sy = lon0 + a * rr * np.cos(uu), lat0 + b * rr * np.sin(uu)
+        fw = pyproj.Transformer.from_crs(4326, int(c["grid"]), always_xy=True)
+        wx, wy = fw.transform(sx.ravel(), sy.ravel())
+        B = ~gb.affine
+        px, py = B.a * wx + B.b * wy + B.c, B.d * wx + B.e * wy + B.f
+        ok = np.isfinite(px) & np.isfinite(py)
+        px, py = px[ok], py[ok]
+        ey, ex = np.cumsum([0] + list(chy)), np.cumsum([0] + list(chx))
+        for i in range(len(chy)):
+            for j in range(len(chx)):
+                inside = (px > ex[j] + 0.25) & (px < ex[j + 1] - 0.25) & (py > ey[i] + 0.25) & (py < ey[i + 1] - 0.25)
+                if int(inside.sum()) >= 3:
+                    ev["need"].append([i, j])
+                # far: no sample point (nor the dense outline) within 3 pixels of the tile
+        ox, oy = fw.transform(np.array([p[0] for p in ring]), np.array([p[1] for p in ring]))
+        qx, qy = B.a * ox + B.b * oy + B.c, B.d * ox + B.e * oy + B.f
+        ax, ay = np.concatenate([px, qx]), np.concatenate([py, qy])
+        for i in range(len(chy)):
+            for j in range(len(chx)):
+                near = (ax > ex[j] - 3) & (ax < ex[j + 1] + 3) & (ay > ey[i] - 3) & (ay < ey[i + 1] + 3)
+                if not near.any() and not (qx.min() < ex[j] and qx.max() > ex[j + 1] and qy.min() < ey[i] and qy.max() > ey[i + 1]):
+                    ev["far"].append([i, j])
+    except Exception as ex:  # noqa: BLE001
+        ev["outcome"] = type(ex).__name__
+    return ev
+
+
 def execute(c):
+    if c["op"] == "rquery":
+        return _rquery(c)
     return _query(c) if c["op"] == "query" else (_rpair(c) if c["op"] == "rpair" else _pair(c))
 
 
@@ -171,6 +233,7 @@ def run(ctx):
     ident = lambda c: c["A"] == [960, 0, 0, 0, 960, 0] and c["crs"] == "same" and (c["hs"], c["ws"]) == (c["hd"], c["wd"])  # noqa: E731
     same = [c for c in ps if ident(c)]                                   # one grid tiled twice: all kept
     ps = [c for c in ps if not ident(c)]
+    same += [c for c in cases if c["op"] == "rquery"]
     rs = [c for c in cases if c["op"] == "rpair" and c["zoom"] != "global"]
     same += [c for c in cases if c["op"] == "rpair" and c["zoom"] == "global"]        # sources wrapping the globe: all kept
     cases = ctx.subsample(qs, 6000 if q else 10 ** 6) + ctx.subsample(ps, 2500 if q else 10 ** 6) + same + ctx.subsample(rs, 400 if q else 10 ** 6)
@@ -180,6 +243,8 @@ def run(ctx):
         c = ev["c"]
         if c["op"] == "query":
             ctx.record(c, v, op="query:" + c["how"], nontrivial=len(ev["out"]) > 0, sample={"case": c, "query": ev["q"], "tiles": ev["out"]})
+        elif c["op"] == "rquery":
+            ctx.record(c, v, op="query:real-crs:" + c["grid"], nontrivial=len(ev["need"]) > 0, sample={"case": c, "tiles": ev["out"], "must": ev["need"], "far": len(ev["far"])})
         elif c["op"] == "rpair":
             ctx.record(c, v, op="graph:real-crs:" + c["pair"], nontrivial=len(ev["need"]) > 0, sample={"case": c, "deps": ev["deps"][:4], "needed_pairs": len(ev["need"]), "apart": ev["apart"]})
         else:
